@@ -16,8 +16,9 @@ from vlib import harness
 ID = "C14"
 LEVEL = "exploration"
 TECHNIQUE = ("runtime monitor: generated fd tables / fdinfo / io records (real temp files as link targets) under "
-             "the real open_files/num_fds/io_counters, ground-truth oracle, mid-scan close fault plans")
-RULE = ("one case = one simulated live process with 0-60 descriptors of 20 kinds (regular files incl. names with "
+             "the real open_files/num_fds/io_counters, ground-truth oracle, mid-scan close fault plans; live kernel: a real child "
+             "holding ~65 descriptors of every kind vs an independent reading of /proc/<pid>/fd + fdinfo + io")
+RULE = ("live part: a real child opens regular files in every access/append mode (incl. access mode 3, names with blanks and a newline, a file literally named '(deleted)', deleted and re-created files), a directory, /dev/null, pipes, sockets, memfd, eventfd, epoll, 40 high-numbered dups and blocks in open() of a FIFO (a reserved, not yet installed descriptor). one case = one simulated live process with 0-60 descriptors of 20 kinds (regular files incl. names with "
         "spaces/newline/non-ASCII, literal ' (deleted)' file, directory, FIFO, /dev/null, pipe:, socket:, "
         "anon_inode:, relative targets that exist relative to the cwd, ' (deleted)' targets whose undeleted path "
         "does / does not exist, missing absolute path), flag word = access mode 0-3 x subset of 7 open flags, "
@@ -445,11 +446,175 @@ def run_case(case, acc):
     acc.case(case, nontrivial(case), viols)
 
 
+# ---- live kernel: a real child holding descriptors of many kinds ------------------------------------------------
+
+LIVE_CHILD = r"""
+import json, os, socket, sys, time
+d = sys.argv[1]
+keep = []
+def reg(name, flags, pos=0, data=b"0123456789" * 50):
+    p = os.path.join(d, name)
+    if not os.path.exists(p):
+        with open(p, "wb") as f:
+            f.write(data)
+    fd = os.open(p, flags)
+    if pos:
+        os.lseek(fd, pos, os.SEEK_SET)
+    keep.append(fd)
+    return fd
+reg("plain r.txt", os.O_RDONLY, 7)
+reg("w.bin", os.O_WRONLY, 3)
+reg("rw.bin", os.O_RDWR, 123)
+reg("app.log", os.O_WRONLY | os.O_APPEND)
+reg("rwapp.log", os.O_RDWR | os.O_APPEND, 5)
+reg("cloexec.txt", os.O_RDONLY | os.O_CLOEXEC)
+reg("ro_append.log", os.O_RDONLY | os.O_APPEND, 11)
+reg("mode3.dat", 3)
+reg("creat_excl.dat", os.O_WRONLY | os.O_CREAT | os.O_TRUNC, 0)
+reg("name with\nnewline", os.O_RDONLY)
+reg("lit (deleted)", os.O_RDONLY)
+reg("sync.dat", os.O_WRONLY | os.O_SYNC | os.O_NONBLOCK)
+gone = reg("gone.tmp", os.O_RDWR, 9)
+os.unlink(os.path.join(d, "gone.tmp"))
+recreated = reg("recreated.tmp", os.O_RDONLY)
+os.unlink(os.path.join(d, "recreated.tmp"))
+open(os.path.join(d, "recreated.tmp"), "w").close()
+keep.append(os.open(d, os.O_RDONLY | os.O_DIRECTORY))
+keep.append(os.open("/dev/null", os.O_RDWR))
+r, w = os.pipe(); keep += [r, w]
+s1 = socket.socket(socket.AF_UNIX); keep.append(s1)
+s2 = socket.socket(socket.AF_INET); keep.append(s2)
+try:
+    keep.append(os.memfd_create("buf"))
+except Exception:
+    pass
+try:
+    keep.append(os.eventfd(0))
+except Exception:
+    pass
+import select
+keep.append(select.epoll())
+# many descriptors with large numbers
+for i in range(40):
+    keep.append(os.dup2(0, 200 + 13 * i))
+# a system call in progress that has reserved a descriptor number but not installed it: open() of a FIFO without writer
+import threading
+fifo = os.path.join(d, "fifo")
+os.mkfifo(fifo)
+threading.Thread(target=lambda: os.open(fifo, os.O_RDONLY), daemon=True).start()
+time.sleep(0.3)
+print("up", flush=True)
+while True:
+    time.sleep(1000)
+"""
+
+
+def run_live(shard, acc):
+    import json
+    import stat as statmod
+    import subprocess
+    import sys
+    import time
+    ps = setup()["ps"]
+    ps.PROCFS_PATH = "/proc"
+    tmp = tempfile.mkdtemp(prefix="c14live_", dir=os.environ.get("VERIF_TMP") or None)
+    envp = {k: v for k, v in os.environ.items() if k != "LD_PRELOAD"}
+    child = subprocess.Popen([sys.executable, "-S", "-c", LIVE_CHILD, tmp], env=envp, stdout=subprocess.PIPE, stdin=subprocess.DEVNULL)
+    viols = []
+    try:
+        if not child.stdout.readline():
+            acc.inconclusive = "live child did not start"
+            return
+        pid = child.pid
+        pr = ps.Process(pid)
+        # independent reading of the kernel's descriptor table
+        ref = {}
+        for name in os.listdir(f"/proc/{pid}/fd"):
+            fd = int(name)
+            target = os.readlink(f"/proc/{pid}/fd/{fd}")
+            with open(f"/proc/{pid}/fdinfo/{fd}") as f:
+                info = dict(ln.split(":", 1) for ln in f.read().splitlines() if ":" in ln)
+            ref[fd] = dict(target=target, pos=int(info["pos"]), flags=int(info["flags"], 8))
+        acc.count("live_descriptors_in_table", len(ref))
+        got_n = pr.num_fds()
+        acc.count("num_fds_comparisons")
+        if got_n != len(ref):
+            viols.append(("live:num_fds_wrong", f"num_fds() -> {got_n}, /proc/{pid}/fd lists {len(ref)}"))
+        rows = pr.open_files()
+        acc.count("open_files_calls")
+        by_fd = {}
+        for r in rows:
+            if r.fd in by_fd or r.fd not in ref:
+                viols.append(("live:open_files_bogus_entry", f"{r!r}"))
+            by_fd[r.fd] = r
+        for fd, e in ref.items():
+            t = e["target"]
+            is_file = False
+            if t.startswith("/"):
+                try:
+                    is_file = statmod.S_ISREG(os.stat(t).st_mode)
+                except OSError:
+                    is_file = False
+            stripped = t[:-10] if t.endswith(" (deleted)") else None
+            stripped_is_file = False
+            if stripped and not is_file:
+                try:
+                    stripped_is_file = statmod.S_ISREG(os.stat(stripped).st_mode)
+                except OSError:
+                    pass
+            r = by_fd.get(fd)
+            if is_file:
+                acc.count("entries_compared")
+                if r is None:
+                    viols.append(("live:open_files_misses_file", f"fd {fd} -> {t!r} (existing regular file) not listed"))
+                    continue
+                wm = want_mode(e["flags"])
+                bad = []
+                if r.path != t:
+                    bad.append(f"path {r.path!r} want {t!r}")
+                if r.position != e["pos"]:
+                    bad.append(f"position {r.position} want {e['pos']}")
+                if r.flags != e["flags"]:
+                    bad.append(f"flags {r.flags:o} want {e['flags']:o}")
+                if wm is not None and r.mode != wm:
+                    bad.append(f"mode {r.mode!r} want {wm!r} (flags {e['flags']:o})")
+                if bad:
+                    viols.append(("live:open_files_entry_wrong", f"fd {fd}: " + "; ".join(bad)))
+            elif stripped_is_file:
+                acc.count("left_out_checked")       # deleted, another file took the name: either answer (statement silent)
+                if r is not None and r.path not in (t, stripped):
+                    viols.append(("live:open_files_entry_wrong", f"fd {fd}: path {r.path!r} for link {t!r}"))
+            else:
+                acc.count("left_out_checked")
+                if r is not None:
+                    viols.append(("live:open_files_lists_non_file", f"fd {fd} -> {t!r} listed as {r!r}"))
+        # io_counters against the kernel's own record (the child sleeps: the figures stand still)
+        with open(f"/proc/{pid}/io") as f:
+            raw = dict((k.strip(), int(v)) for k, v in (ln.split(":") for ln in f.read().splitlines() if ":" in ln))
+        io = pr.io_counters()
+        acc.count("io_comparisons")
+        for doc, key in IO_DOC.items():
+            if getattr(io, doc, None) != raw.get(key):
+                viols.append(("live:io_counters_wrong", f"{doc}: got {getattr(io, doc, None)} kernel {key}={raw.get(key)}"))
+        # the same through oneshot()/as_dict()
+        with pr.oneshot():
+            if pr.num_fds() != got_n or pr.open_files() != rows or pr.io_counters() != io:
+                viols.append(("live:differs_in_oneshot_block", "num_fds/open_files/io_counters"))
+        acc.count("call_path_comparisons", 3)
+    finally:
+        child.kill()
+        child.wait()
+        child.stdout.close()
+        shutil.rmtree(tmp, ignore_errors=True)
+    acc.case(dict(kind="live"), True, viols)
+
+
 def plan(tier, seed):
     n = 40000 if tier == "quick" else 2_000_000
     shards = [dict(kind="flagwords")]
     for s, c in harness.split_range(n, 16 if tier == "quick" else 48):
         shards.append(dict(kind="gen", seed=seed, start=s, count=c))
+    shards.append(dict(kind="live"))
     return shards
 
 
@@ -469,9 +634,14 @@ def run_shard(shard):
             for i in range(shard["start"], shard["start"] + shard["count"]):
                 rng = harness.rng_for(shard["seed"], "c14", i)
                 run_case(gen_case(rng), acc)
+        elif shard["kind"] == "live":
+            run_live(shard, acc)
         elif shard["kind"] == "cases":
             for case in shard["cases"]:
-                run_case(case, acc)
+                if case.get("kind") == "live":
+                    run_live({}, acc)
+                else:
+                    run_case(case, acc)
     finally:
         _cleanup()
     return acc.result()
